@@ -162,7 +162,7 @@ inline const std::unordered_map<std::string_view, Unit::Area> Spellings<Unit::Ar
     {"nmi^2",       Unit::Area::SquareNauticalMile},
     {"nmi2",        Unit::Area::SquareNauticalMile},
     {"NM^2",        Unit::Area::SquareNauticalMile},
-    {"NM",          Unit::Area::SquareNauticalMile},
+    {"NM2",         Unit::Area::SquareNauticalMile},
     {"mi^2",        Unit::Area::SquareMile        },
     {"mi2",         Unit::Area::SquareMile        },
     {"km^2",        Unit::Area::SquareKilometre   },
